@@ -2,6 +2,7 @@ package main
 
 import (
 	"fmt"
+	"go/types"
 	"strings"
 
 	"golang.org/x/tools/go/ssa"
@@ -135,6 +136,21 @@ func c19TxPointer(p *Prog, c *Check) {
 		if a.Op == "==" && a.R == termTrue && (a.L.K == TPhi || a.L.K == TRes && a.L.Sub[0].K == TCall && a.L.Sub[0].Callee != nil && inModule(a.L.Sub[0].Callee)) {
 			cond = a.L
 		}
+		// a field of a struct returned by a helper (state.outdated)
+		if a.Op == "==" && a.R == termTrue && a.L.K == TField {
+			// find the value that reads this field
+			for _, blk := range fn.Blocks {
+				for _, in := range blk.Instrs {
+					if v, isV := in.(ssa.Value); isV && fi.T(v).s == a.L.s {
+						if call, _, _ := structFieldOfCall(v); call != nil && instrDominates(in, cnt) {
+							ct := *a.L
+							ct.Val = v
+							cond = &ct
+						}
+					}
+				}
+			}
+		}
 	}
 	if cond == nil {
 		c.Fail(rule, "getTxPointer:outdated", p.siteOf(cnt), shortFn(fn), "use of the queue length", "the queue length is not used under an 'outdated' flag computed from the age")
@@ -175,6 +191,41 @@ func c19TxPointer(p *Prog, c *Check) {
 					flag(ffi, e, epf, max, depth+1)
 				}
 				return
+			}
+			// a field of the struct a helper returns: the value stored into that field of the literal at
+			// every successful return of the helper
+			if call, resIdx, fname := structFieldOfCall(v); call != nil {
+				{
+					if h := call.Common().StaticCallee(); h != nil && inModule(h) && h.Blocks != nil {
+						h = origin(h)
+						hfi := p.Info(h)
+						var hmax *Term
+						for i, a := range call.Common().Args {
+							if i < len(h.Params) && ffi.T(a).s == max.s {
+								hmax = hfi.T(h.Params[i])
+							}
+						}
+						if hmax != nil {
+							nres := h.Signature.Results().Len()
+							okAll := true
+							for _, r := range returnsOf(h) {
+								if isErrorType(h.Signature.Results().At(nres-1).Type()) && hfi.errIsNil(r.Results[nres-1], r, 0) == no {
+									continue
+								}
+								fv := litFieldValue(r.Results[resIdx], fname)
+								if fv == nil {
+									okAll = false
+									break
+								}
+								flag(hfi, fv, hfi.FactsAt(r), hmax, depth+1)
+							}
+							if okAll {
+								c.Analysed(shortFn(h))
+								return
+							}
+						}
+					}
+				}
 			}
 			// the k-th result of a helper: every successful return of the helper
 			if ex, isEx := v.(*ssa.Extract); isEx {
@@ -358,6 +409,47 @@ func c19Trigger(p *Prog, c *Check) {
 				n++
 				okO := fi.mustPassSuccess(set, sel.Block())
 				c.Result(okO, rule, "triggerDecryption:store-before-send", p.siteOf(sel), shortFn(fn), "send of the decryption trigger", "the trigger can be sent without the current trigger having been stored successfully", "SetCurrentDecryptionTrigger == nil before send")
+			}
+		}
+	}
+	// a send performed by a helper: the helper is called only after the store succeeded
+	if n == 0 {
+		for _, blk := range fn.Blocks {
+			for _, in := range blk.Instrs {
+				call, isCall := in.(*ssa.Call)
+				if !isCall {
+					continue
+				}
+				h := call.Common().StaticCallee()
+				if h == nil || !inModule(h) || h.Blocks == nil || isGeneratedFile(p.fileOf(h)) {
+					continue
+				}
+				sends := false
+				for _, g := range p.CG().Reachable([]*ssa.Function{h}, func(f *ssa.Function) bool { return !inModule(f) || isGeneratedFile(p.fileOf(f)) }) {
+					for _, gb := range g.Blocks {
+						for _, gi := range gb.Instrs {
+							switch x := gi.(type) {
+							case *ssa.Select:
+								for _, st := range x.States {
+									if st.Send != nil && strings.Contains(st.Chan.Type().String(), "DecryptionTrigger") {
+										sends = true
+									}
+								}
+							case *ssa.Send:
+								if strings.Contains(x.Chan.Type().String(), "DecryptionTrigger") {
+									sends = true
+								}
+							}
+						}
+					}
+				}
+				if !sends {
+					continue
+				}
+				n++
+				c.Analysed(shortFn(h))
+				okO := fi.mustPassSuccess(set, call.Block())
+				c.Result(okO, rule, "triggerDecryption:store-before-send", p.siteOf(call), shortFn(fn), "send of the decryption trigger (in "+shortFn(h)+")", "the trigger can be sent without the current trigger having been stored successfully", "SetCurrentDecryptionTrigger == nil before send")
 			}
 		}
 	}
@@ -547,4 +639,94 @@ func c19Accum(p *Prog, c *Check, rule, key, site string, root *ssa.Function, afi
 		return false
 	}
 	return okAll
+}
+
+// litFieldValue: the value stored into field `name` of a struct literal (v is the literal's alloc or a
+// load of it); an absent store means the zero value, reported as a false constant for bool fields by
+// returning nil only when the literal itself is not recognisable.
+func litFieldValue(v ssa.Value, name string) ssa.Value {
+	var al *ssa.Alloc
+	switch x := v.(type) {
+	case *ssa.Alloc:
+		al = x
+	case *ssa.UnOp:
+		al, _ = x.X.(*ssa.Alloc)
+	}
+	if al == nil {
+		return nil
+	}
+	var out ssa.Value
+	n := 0
+	for _, r := range *al.Referrers() {
+		fa, ok := r.(*ssa.FieldAddr)
+		if !ok || fieldName(al.Type(), fa.Field) != name {
+			continue
+		}
+		for _, r2 := range *fa.Referrers() {
+			if st, ok := r2.(*ssa.Store); ok && st.Addr == ssa.Value(fa) {
+				out = st.Val
+				n++
+			}
+		}
+	}
+	if n == 0 {
+		// zero value
+		if st, ok := deref(al.Type()).Underlying().(*types.Struct); ok {
+			for i := 0; i < st.NumFields(); i++ {
+				if st.Field(i).Name() == name {
+					return ssa.NewConst(nil, st.Field(i).Type())
+				}
+			}
+		}
+		return nil
+	}
+	if n > 1 {
+		return nil
+	}
+	return out
+}
+
+// structFieldOfCall: v reads field F of the struct returned (as result k) by a call: directly
+// (ssa.Field of the result) or through the local the result was stored into.
+func structFieldOfCall(v ssa.Value) (*ssa.Call, int, string) {
+	fromResult := func(x ssa.Value) (*ssa.Call, int) {
+		switch y := x.(type) {
+		case *ssa.Extract:
+			if c, ok := y.Tuple.(*ssa.Call); ok {
+				return c, y.Index
+			}
+		case *ssa.Call:
+			return y, 0
+		}
+		return nil, 0
+	}
+	switch x := v.(type) {
+	case *ssa.Field:
+		if c, k := fromResult(x.X); c != nil {
+			return c, k, fieldName(x.X.Type(), x.Field)
+		}
+	case *ssa.UnOp:
+		fa, ok := x.X.(*ssa.FieldAddr)
+		if !ok {
+			return nil, 0, ""
+		}
+		al, ok := fa.X.(*ssa.Alloc)
+		if !ok {
+			return nil, 0, ""
+		}
+		var st *ssa.Store
+		n := 0
+		for _, r := range *al.Referrers() {
+			if s, ok := r.(*ssa.Store); ok && s.Addr == ssa.Value(al) {
+				st = s
+				n++
+			}
+		}
+		if n == 1 {
+			if c, k := fromResult(st.Val); c != nil {
+				return c, k, fieldName(al.Type(), fa.Field)
+			}
+		}
+	}
+	return nil, 0, ""
 }
